@@ -32,8 +32,10 @@ CHECKS = {
    text="The set of strings the Version constructor accepts is proved equal to the valid-version language for ALL strings: the "
         "real compiled re_valid_version (exact Unicode character sets from the running interpreter, '$' vs '\\Z' semantics) plus the "
         "colon rule are turned into a regular language and compared with the Policy grammar by SMT; ':' and '-' are proved absent "
-        "from the revision group. Decomposition, str() identity and component-assignment histories are a bounded stand-in over the "
-        "pattern's minterm alphabet.",
+        "from the revision group. The functions around the pattern (_set_full_version, _update_full_version, __setattr__ for every "
+        "magic attribute incl. 'ValueError leaves all four fields unchanged', __getattr__, __str__) are verified from their AST "
+        "with the pattern's groups as uninterpreted functions. That the groups equal the property's decomposition, str() identity "
+        "and assignment histories end to end are a bounded stand-in over the pattern's minterm alphabet.",
    design="DESIGN.md §5 C14",
    note="Trusted: CPython's re implements the language of its parse tree; a greedy optional group at the start participates iff a match "
         "with it exists. Bounded: strings up to length 4/5 over the minterm alphabet, seeded setter histories. upstream_version=None is "
